@@ -177,7 +177,8 @@ def generate(rng, tier):
                           "sym": rng.choice("+-*/"), "num": float(rng.choice([2, 4, 0.5, 3]))}
     if rng.random() < 0.02:
         # sizes at which libraries switch code paths (chunking, copies of non-contiguous buffers)
-        case["big"] = {"n": rng.choice([70000, 131073, 200000]), "view": rng.choice(["strided", "strided", "reversed", "plain", "column"]),
+        case["big"] = {"n": rng.choice([70000, 131073, 200000]), "view": rng.choice(["strided", "strided", "reversed", "plain", "column", "window", "window"]),
+                       "via": rng.choice([None, "group", "group-slice"]),
                        "sym": rng.choice("+-*/"), "rel": rng.choice(["same", "compatible", "compatible", "number"]), "seed": rng.getrandbits(30)}
     return case
 
@@ -235,8 +236,21 @@ def big_scenario(bg, osy, V, stats):
         g = np.random.default_rng(bg["seed"])
         base = g.integers(1, 50, size=(2 * n, 3) if bg["view"] == "column" else 2 * n).astype(np.float64)
         parent = osy.Array(values=base.copy(), unit="m")
-        sl = {"strided": (slice(None, None, 2),), "reversed": (slice(None, None, -2),), "plain": (slice(0, n),), "column": (slice(0, n), 1)}[bg["view"]]
+        if bg["view"] == "window":
+            n = n // 3  # a small window (1/6 of the parent) somewhere inside it
+        sl = {"strided": (slice(None, None, 2),), "reversed": (slice(None, None, -2),), "plain": (slice(0, n),), "column": (slice(0, n), 1),
+              "window": (slice(1000, 1000 + n),)}[bg["view"]]
         x = parent[sl if len(sl) > 1 else sl[0]]
+        via = bg.get("via")
+        if via == "group":
+            # the view is stored in a Datagroup and updated through it: it is still a view of the parent
+            dg_ = osy.Datagroup()
+            dg_["w"] = x
+            x = dg_["w"]
+        elif via == "group-slice" and len(sl) == 1:
+            dgp = osy.Datagroup()
+            dgp["p"] = parent
+            x = dgp[sl[0]]["p"]
         yv = g.integers(1, 9, size=n).astype(np.float64)
         yunit = {"same": "m", "compatible": "cm", "number": None}[bg["rel"]]
         if bg["sym"] in "+-" and yunit is None:
